@@ -907,7 +907,30 @@ fn respond(line: &str) -> R {
         }
         // identity of trait bounds: eq, recorded hash input, printed form
         ["tb", a, b] => {
-            let (a, b) = (TraitBound(parse::<syn::Path>(a)?), TraitBound(parse::<syn::Path>(b)?));
+            // `__G<T>` in the request stands for `T` inside an invisible group (what a type arriving
+            // through a `macro_rules!` `$t:ty` fragment looks like): text cannot spell it
+            struct Grouper;
+            impl syn::visit_mut::VisitMut for Grouper {
+                fn visit_type_mut(&mut self, node: &mut syn::Type) {
+                    syn::visit_mut::visit_type_mut(self, node);
+                    let syn::Type::Path(ty) = node else { return };
+                    if ty.qself.is_some() || ty.path.segments.len() != 1 || ty.path.segments[0].ident != "__G" {
+                        return;
+                    }
+                    if let syn::PathArguments::AngleBracketed(args) = &ty.path.segments[0].arguments {
+                        if let Some(syn::GenericArgument::Type(inner)) = args.args.first() {
+                            *node = syn::Type::Group(syn::TypeGroup {
+                                group_token: Default::default(),
+                                elem: Box::new(inner.clone()),
+                            });
+                        }
+                    }
+                }
+            }
+            let (mut a, mut b) = (parse::<syn::Path>(a)?, parse::<syn::Path>(b)?);
+            syn::visit_mut::VisitMut::visit_path_mut(&mut Grouper, &mut a);
+            syn::visit_mut::VisitMut::visit_path_mut(&mut Grouper, &mut b);
+            let (a, b) = (TraitBound(a), TraitBound(b));
             Ok(join(vec![
                 ser_path(&a.0)?,
                 ser_path(&b.0)?,
